@@ -293,6 +293,23 @@ func (s *schemaBuilder) buildFromTextMarshal(tpe types.Type, tgt swaggerTypable)
 	return nil
 }
 
+// isBase64Slice tells whether encoding/json renders a slice of elem as a base64-encoded string:
+// it does so when the element is of uint8 kind (byte or a named type such as `type Level uint8`)
+// and neither it nor a pointer to it has a MarshalJSON or MarshalText method.
+func isBase64Slice(elem types.Type) bool {
+	basic, ok := elem.Underlying().(*types.Basic)
+	if !ok || basic.Kind() != types.Uint8 {
+		return false
+	}
+	mset := types.NewMethodSet(types.NewPointer(elem))
+	for _, name := range []string{"MarshalJSON", "MarshalText"} {
+		if mset.Lookup(nil, name) != nil {
+			return false
+		}
+	}
+	return true
+}
+
 func (s *schemaBuilder) buildFromType(tpe types.Type, tgt swaggerTypable) error {
 	pkg, err := importer.Default().Import("encoding")
 	if err != nil {
@@ -316,7 +333,7 @@ func (s *schemaBuilder) buildFromType(tpe types.Type, tgt swaggerTypable) error 
 	case *types.Interface:
 		return s.buildFromInterface(s.decl, titpe, tgt.Schema(), make(map[string]string))
 	case *types.Slice:
-		if elem, ok := titpe.Elem().(*types.Basic); ok && elem.Kind() == types.Uint8 {
+		if isBase64Slice(titpe.Elem()) {
 			// encoding/json renders a []byte as a base64-encoded string
 			tgt.Typed("string", "byte")
 			return nil
